@@ -82,6 +82,9 @@ class TradeSpec:
         below = z3.And(z3.Not(w.nan), absr(w.v) < self.margin)
         return z3.And(qin, z3.Not(q.nan), self.quantity(k) != 0, z3.Not(z3.And(below, self.adom(k))))
 
+    def emitted_modulo_quote(self, k):
+        return self.emitted(k)
+
     def rejects(self, k):
         return z3.Or(self.v.bid_nan(k), self.v.ask_nan(k))
 
